@@ -305,6 +305,115 @@ fn run_case(line: &str) -> String {
     Term::tag("obs", vec![Term::bytes(&bytes), res]).to_string()
 }
 
+/// wrap a packet-level case into an end-to-end case
+fn e2e_of(r: &mut verif_pt::sexp::Rng, line: &str) -> Option<String> {
+    let t = Term::parse(line)?;
+    let a = t.tagged("c05")?;
+    let desc = CodecDesc::parse(&a[0])?;
+    let ebgp = a[1].as_bool()?;
+    let u = upd_of(&a[2])?;
+    let cs = a[3].tagged("corr")?.iter().map(corr_of).collect::<Option<Vec<_>>>()?;
+    if !desc.distinct() || !renderable(&u, &cs) {
+        return None;
+    }
+    let bytes = render(&desc, &u, &cs);
+    let max = if desc.ext { 65535 } else { 4096 };
+    if bytes.len() > max {
+        return None;
+    }
+    let kind = if ebgp { "ebgp" } else if r.chance(1, 2) { "ibgp" } else { "confed" };
+    let pre = r.chance(1, 2);
+    Some(format!("(e2e {} {} {} {})", kind, if pre { "t" } else { "f" }, line, hex_t(&bytes)))
+}
+
+/// deterministic end-to-end cases: one valid UPDATE with every attribute type of the generator; each attribute with
+/// each Optional/Transitive flag conflict, a value one byte too long, omitted; NEXT_HOP omitted together with a malformed
+/// optional non-transitive attribute; the same with a second family announced in MP_REACH; for three peer kinds
+fn e2e_systematic() -> Vec<String> {
+    let attrs: Vec<(u8, u8, Vec<u8>)> = vec![
+        (0x40, 1, vec![0]),
+        (0x40, 2, vec![2, 1, 0, 0, 0xfd, 0xe9]),
+        (0x40, 3, vec![10, 0, 0, 1]),
+        (0x80, 4, vec![0, 0, 0, 5]),
+        (0x40, 5, vec![0, 0, 0, 200]),
+        (0xc0, 7, vec![0, 0, 0xfd, 0xe9, 10, 0, 0, 9]),
+        (0xc0, 8, vec![0xff, 0xff, 0xff, 0x01]),
+        (0x80, 9, vec![10, 0, 0, 7]),
+        (0x80, 10, vec![10, 0, 0, 8]),
+        (0xc0, 16, vec![0, 2, 0xfd, 0xe8, 0, 0, 0, 100]),
+        (0x80, 26, vec![1, 0, 11, 0, 0, 0, 0, 0, 0, 0, 100]),
+        (0xc0, 32, vec![0, 0, 0xfd, 0xe8, 0, 0, 0, 1, 0, 0, 0, 2]),
+    ];
+    let attrs_t: Vec<String> = attrs.iter().map(|a| format!("(a {} {} {})", a.0, a.1, Term::bytes(&a.2))).collect();
+    let mut corrs: Vec<String> = Vec::new();
+    for (i, a) in attrs.iter().enumerate() {
+        for f in [a.0 ^ 0x80, a.0 ^ 0x40, a.0 ^ 0xc0, a.0 | 0x20] {
+            corrs.push(format!("(flags {} {})", i, f));
+        }
+        corrs.push(format!("(omit {})", i));
+        let mut d = a.2.clone();
+        d.push(0);
+        corrs.push(format!("(data {} {})", i, Term::bytes(&d)));
+        let mut d2 = a.2.clone();
+        if let Some(x) = d2.last_mut() {
+            *x ^= 1;
+        }
+        corrs.push(format!("(dup {} {})", i, Term::bytes(&d2)));
+    }
+    for i in [3usize, 7, 8, 10] {
+        let mut d = attrs[i].2.clone();
+        d.pop();
+        corrs.push(format!("(omit 2) (data {} {})", i, Term::bytes(&d)));
+    }
+    corrs.push("(trunc 2)".into());
+    corrs.push("(unknown 64 99 x01)".into());
+    corrs.push("(unknown 128 99 x01)".into());
+    let mut out = Vec::new();
+    for (kind, ebgp, pre) in [("ebgp", "t", "t"), ("ibgp", "f", "f"), ("confed", "f", "t")] {
+        for (v6, codec, mpr, nlri) in [
+            (false, "(codec f f (fams (1 1 f)))", "none", "(nlri (0 24 xc0a801) (0 16 x0a02))"),
+            (true, "(codec f f (fams (1 1 f) (2 1 f)))", "(mpr 2 1 x20010db8000000000000000000000001 (0 32 x20010db8))", "(nlri (0 24 xc0a801))"),
+        ] {
+            for (n, cr) in corrs.iter().enumerate() {
+                // the two-family variant only for every third corruption
+                if v6 && n % 3 != 0 {
+                    continue;
+                }
+                let inner = format!(
+                    "(c05 {} {} (upd (wd (0 24 x0a0909)) (attrs {}) {} none {}) (corr {}))",
+                    codec,
+                    ebgp,
+                    attrs_t.join(" "),
+                    mpr,
+                    nlri,
+                    cr
+                );
+                if let Some(l) = e2e_fixed(kind, pre, &inner) {
+                    out.push(l);
+                }
+            }
+        }
+    }
+    out
+}
+
+fn e2e_fixed(kind: &str, pre: &str, line: &str) -> Option<String> {
+    let t = Term::parse(line)?;
+    let a = t.tagged("c05")?;
+    let desc = CodecDesc::parse(&a[0])?;
+    let u = upd_of(&a[2])?;
+    let cs = a[3].tagged("corr")?.iter().map(corr_of).collect::<Option<Vec<_>>>()?;
+    if !renderable(&u, &cs) {
+        return None;
+    }
+    let bytes = render(&desc, &u, &cs);
+    Some(format!("(e2e {} {} {} {})", kind, pre, line, hex_t(&bytes)))
+}
+
+fn hex_t(b: &[u8]) -> String {
+    bytes_split_t(b).to_string()
+}
+
 fn main() {
     let a: Vec<String> = std::env::args().collect();
     silence_panics();
@@ -315,6 +424,23 @@ fn main() {
             let n: usize = a[3].parse().expect("n");
             for l in wiregen::gen_c05(seed, n, &a[4]) {
                 println!("{}", l);
+            }
+            // end-to-end stream (routed to the daemon harness by CONFIG["harnesses"]): the same kind of case with the
+            // peer kind, whether the announced prefixes are installed beforehand, and the rendered frame
+            for l in e2e_systematic() {
+                println!("{}", l);
+            }
+            let n_e2e = if a[4] == "thorough" { 4000 } else { 160 };
+            let mut r = verif_pt::sexp::Rng(seed.wrapping_mul(0x9E3779B97F4A7C15) ^ 0xE2E05);
+            let mut made = 0;
+            let mut tries = 0;
+            while made < n_e2e && tries < n_e2e * 20 {
+                tries += 1;
+                let line = wiregen::gen_c05_case(&mut r);
+                if let Some(l) = e2e_of(&mut r, &line) {
+                    println!("{}", l);
+                    made += 1;
+                }
             }
         }
         _ => {
